@@ -11,7 +11,7 @@ import importlib
 import math
 import random
 
-from .contracts import Alt, Bool, Const, Int, Obj, Real, Seq, Sort, Str, Tup, _Scalar, configurations
+from .contracts import Alt, Bool, Const, Dct, Int, Obj, Real, Seq, Sort, Str, Tup, _Scalar, configurations
 
 
 class R(float):
@@ -161,6 +161,8 @@ def from_model(sort, v, spec=None, name=None):
     if isinstance(sort, Tup):
         items = [from_model(s, x) for s, x in zip(sort.elems, v)]
         return tuple(items) if sort.pytype == "tuple" else items
+    if isinstance(sort, Dct):
+        return {k: from_model(fs, v.get(k)) for k, fs in sort.fields.items()}
     if isinstance(sort, Obj):
         build = (spec or {}).get("native_build", {}).get(name)
         if build is None:
@@ -188,7 +190,7 @@ def _fits(s, v):
         return not isinstance(v, bool) or s.kind == "int"
     if isinstance(s, Str):
         return isinstance(v, str)
-    if isinstance(s, Obj):
+    if isinstance(s, (Obj, Dct)):
         return isinstance(v, dict) and all(_fits(fs, v.get(k)) for k, fs in s.fields.items())
     return True
 
@@ -262,6 +264,11 @@ def check(spec, args):
     raises = spec.get("raises") or {}
     if raised is None:
         post["result"] = wrap(result)
+        for gname, gexpr in (spec.get("post_ghost") or {}).items():
+            try:
+                post[gname] = wrap(eval(gexpr, {**glob, **{k: unwrap(v) for k, v in post.items()}}))
+            except Exception as e:  # noqa: BLE001
+                out.append((f"post-ghost-{gname}", False, f"{type(e).__name__}: {e}"))
         for cname, cexpr in spec.get("ensures", []):
             try:
                 ok = bool(eval(cexpr, {**glob, **post}))
@@ -314,7 +321,7 @@ def random_value(sort, rng, depth=0):
         return [random_value(sort.elem, rng, depth + 1) for _ in range(n)]
     if isinstance(sort, Tup):
         return [random_value(s, rng, depth + 1) for s in sort.elems]
-    if isinstance(sort, Obj):
+    if isinstance(sort, (Obj, Dct)):
         return {k: random_value(s, rng, depth + 1) for k, s in sort.fields.items()}
     raise ValueError(f"no random generator for {sort!r}")
 
